@@ -176,7 +176,9 @@ prop("C14", WORLD,
 # ------------------------------------------------------------------------------------------------ C03
 prop("C03", WORLD,
      [run("crash-points", "harnessC03", ["started", "start-failed", "client-failed", "crash-before-or-inside-call", "broker-ops-returned", "exit-observed", "killed", "with-latency"],
-          quick={"bound": "host x plugin composed, net/rpc, gRPC and gRPC+mux, both launch methods; the plugin is killed (no deferred code runs) at a symbolic instant tDie in [0, 100 s] and needs a symbolic boot time <= 5 s before its line; host history on the symbolic clock: Start @0, Client @10 s, Dispense @20 s, a 3 s call @30 s, broker accept and dial @40 s, Ping @60 s, exit bookkeeping @70 s, Kill @80 s - the solver places tDie in every gap, inside the call and at every tie; optionally every request takes a symbolic one-way latency <= 100 ms, so that the crash also falls inside multi-step operations (between a Dispense's RPC and its broker dial, inside Kill's shutdown request)"})],
+          quick={"bound": "host x plugin composed, net/rpc, gRPC and gRPC+mux, both launch methods; the plugin is killed (no deferred code runs) at a symbolic instant tDie in [0, 100 s] and needs a symbolic boot time <= 5 s before its line; host history on the symbolic clock: Start @0, Client @10 s, Dispense @20 s, a 3 s call @30 s, broker accept and dial @40 s, Ping @60 s, exit bookkeeping @70 s, Kill @80 s - the solver places tDie in every gap, inside the call and at every tie; optionally every request takes a symbolic one-way latency <= 100 ms, so that the crash also falls inside multi-step operations (between a Dispense's RPC and its broker dial, inside Kill's shutdown request)"}),
+      run("mid-line", "harnessC03midline", ["died-mid-line"], files=WORLD,
+          quick={"bound": "a plugin that exits while writing its handshake line (inside the protocol field, right after the address field, or before the multiplexing field the host asked for), both launch methods; then a second Start, Protocol, ReattachConfig, Client, Kill on the same client"})],
      WORLD_ASSUME + ["an in-flight net/rpc or gRPC call fails when its connection dies (library contract, part of the model)"], WORLD_STUBS,
      "crash points inside library internals (a half-written frame); a partial handshake line (covered by C01's EOF/garbage lines); more than one crash per history",
      text="Bounded symbolic model checking of the host's real Start/Client/Dispense/call/broker Accept+Dial/Ping/Exited/Kill composed with the plugin's real Serve, with the plugin's death a symbolic instant anywhere in the history: every operation returns within its bound on the symbolic clock, none panics, operations that needed a dead plugin return errors (and fail only when the plugin is dead), the client reports the exit and the context handed to gRPC plugin clients is cancelled.",
